@@ -76,6 +76,61 @@ func tableString(m map[string]string) string {
 }
 
 func runC02(c *Ctx) {
+	c.Rule("C02.SIGN", "SIBLING: the typed and the generic timestamp-unit classifier compare the same quantity with the magnitude thresholds — the signed first element as decoded; neither takes its absolute value or negates it first (if one did, pre-1970 timestamps in ms/µs/ns would be scaled by different factors depending on which path decoded them)")
+	{
+		usesAbs := func(fn *ssa.Function) (bool, int) {
+			if fn == nil {
+				return false, 0
+			}
+			n := 0
+			abs := false
+			for _, in := range instrs(fn, true) {
+				bo, ok := in.(*ssa.BinOp)
+				if !ok {
+					continue
+				}
+				k, isC := constInt(bo.Y)
+				if !isC || (k != 10000000000 && k != 10000000000000 && k != 10000000000000000) {
+					continue
+				}
+				n++
+				if derives(bo.X, func(v ssa.Value) bool {
+					switch x := v.(type) {
+					case *ssa.UnOp:
+						return x.Op == token.SUB
+					case *ssa.BinOp:
+						if x.Op == token.SUB {
+							if z, ok := constInt(x.X); ok && z == 0 {
+								return true
+							}
+						}
+					case *ssa.Call:
+						return callName(x) == "math.Abs"
+					}
+					return false
+				}, true, 6) {
+					abs = true
+				}
+			}
+			return abs, n
+		}
+		var gen, typ *ssa.Function
+		for _, f := range c.P.FuncsIn("internal/ingest") {
+			switch f.Name() {
+			case "normalizeTimestampColumnsUnit":
+				gen = f
+			case "decodeTimeColumnTyped":
+				typ = f
+			}
+		}
+		a1, n1 := usesAbs(gen)
+		a2, n2 := usesAbs(typ)
+		if n1 == 0 || n2 == 0 {
+			c.Unk("C02.SIGN", "unit-classifiers|threshold-comparisons", 0, "threshold comparisons found: generic %d, typed %d", n1, n2)
+		} else {
+			c.Check(!a1 && !a2, "C02.SIGN", "normalizeTimestampColumnsUnit~decodeTimeColumnTyped|signed-first-element", gen.Pos(), "both classify the signed element", fmt.Sprintf("the unit classifiers do not compare the same quantity (generic uses |x|: %v, typed uses |x|: %v): for a negative first timestamp of magnitude >= 1e10 one path scales by 1e6 and the other by 1e3/1/÷1e3 — the stored time column depends on whether the typed fast path is on", a1, a2))
+		}
+	}
 	c.Rule("C02.DUPCOL", "DOM: in decodeTypedColumns a column value is skipped (the non-array case the generic path drops) only after the duplicate-name test said `first occurrence` — a repeated column key always sends the typed path to the generic decoder, whose last-key-wins result is what every replay of the raw bytes sees")
 	if fn := c.MustFunc("C02.DUPCOL", "(*internal/ingest.MessagePackDecoder).decodeTypedColumns"); fn != nil {
 		n := 0
